@@ -46,6 +46,7 @@ def main(chk, pid, tier, seed, replay):
     env0 = chk.env_base()
     fdir = os.path.join(chk.ROOT, "featprobe")
     # rare-event inputs from the corpora (offline SHAKE searches): key seeds and signature tuples
+    os.makedirs(chk.WORK, exist_ok=True)
     rare_path = os.path.join(chk.WORK, "featprobe_rare.txt")
     n_rare = 0
     with open(rare_path, "w") as rf:
